@@ -24,14 +24,15 @@ EXTENDS Eval, Json
 
 CONSTANTS QText,      \* query id -> Text
           DocVal,     \* document id -> Value
+          DocAlt,     \* document id -> the value the USER may edit the document to, in place
           MaxOps, MaxHandles
 
 Envs == {"mod", "e1", "e2"}
 QIds == DOMAIN QText
 DIds == DOMAIN DocVal
 
-VARIABLES env, handles, hist
-vars == <<env, handles, hist>>
+VARIABLES env, handles, docs, hist
+vars == <<env, handles, docs, hist>>
 
 FName == <<102>>                                    \* "f"
 RegOfEnv(e) == IF env[e].f = "none" THEN Builtins
@@ -46,10 +47,14 @@ Compilable(e, q) == CompileVerdict(QText[q], RegOfEnv(e), LoOfEnv(e), HiOfEnv(e)
 
 Locs(nl) == [k \in 1..Len(nl) |-> nl[k].loc]
 \* the observable result of evaluating q (compiled under e) on d with e's registry now
-Observable(e, q, d) == Locs(Find(Parse(QText[q], FALSE).v, DocVal[d], RegOfEnv(e)))
+\* documents belong to the user, who may edit them in place between applications: the library
+\* must read their content at the time of the call (docs[d] says which content d has now)
+DocNow(d) == IF docs[d] = "alt" THEN DocAlt[d] ELSE DocVal[d]
+Observable(e, q, d) == Locs(Find(Parse(QText[q], FALSE).v, DocNow(d), RegOfEnv(e)))
 
 Init == /\ env = [e \in Envs |-> [exists |-> e # "e2", f |-> "none"]]
         /\ handles = <<>>
+        /\ docs = [d \in DIds |-> "base"]
         /\ hist = <<>>
 
 Log(entry) == hist' = Append(hist, entry)
@@ -62,31 +67,38 @@ Compile(e, q) ==
             /\ Log([op |-> "compile", e |-> e, q |-> q, resp |-> "ok"])
        ELSE /\ UNCHANGED handles
             /\ Log([op |-> "compile", e |-> e, q |-> q, resp |-> "error"])
-    /\ UNCHANGED env
+    /\ UNCHANGED <<env, docs>>
 
 Apply(h, d) ==
     /\ h \in 1..Len(handles)
     /\ Log([op |-> "apply", h |-> h, d |-> d, resp |-> Observable(handles[h].e, handles[h].q, d)])
-    /\ UNCHANGED <<env, handles>>
+    /\ UNCHANGED <<env, handles, docs>>
 
 EnvFind(e, q, d) ==
     /\ env[e].exists
     /\ Log([op |-> "find", e |-> e, q |-> q, d |-> d,
             resp |-> IF Compilable(e, q) THEN Observable(e, q, d) ELSE <<"error">>])
-    /\ UNCHANGED <<env, handles>>
+    /\ UNCHANGED <<env, handles, docs>>
 
 Register(e, b) ==
     /\ env[e].exists
     /\ env[e].f # b
     /\ env' = [env EXCEPT ![e].f = b]
     /\ Log([op |-> "register", e |-> e, b |-> b])
-    /\ UNCHANGED handles
+    /\ UNCHANGED <<handles, docs>>
 
 NewSub ==
     /\ ~env["e2"].exists
     /\ env' = [env EXCEPT !["e2"] = [exists |-> TRUE, f |-> "cf"]]
     /\ Log([op |-> "newsub"])
-    /\ UNCHANGED handles
+    /\ UNCHANGED <<handles, docs>>
+
+\* the user edits a document in place (same object, new content)
+Edit(d) ==
+    /\ DocAlt[d] # DocVal[d]
+    /\ docs' = [docs EXCEPT ![d] = IF docs[d] = "base" THEN "alt" ELSE "base"]
+    /\ Log([op |-> "edit", d |-> d, to |-> IF docs[d] = "base" THEN "alt" ELSE "base"])
+    /\ UNCHANGED <<env, handles>>
 
 Next ==
     /\ Len(hist) < MaxOps
@@ -95,12 +107,13 @@ Next ==
        \/ \E e \in Envs, q \in QIds, d \in DIds : EnvFind(e, q, d)
        \/ \E e \in Envs, b \in {"ct", "cf"} : Register(e, b)
        \/ NewSub
+       \/ \E d \in DIds : Edit(d)
 
 Spec == Init /\ [][Next]_vars
 
 \* the abstract state plus the last operation (so that no operation kind is
 \* starved by another one reaching the same abstract state first)
-View == <<env, handles, IF hist = <<>> THEN <<>> ELSE hist[Len(hist)], Len(hist)>>
+View == <<env, handles, docs, IF hist = <<>> THEN <<>> ELSE hist[Len(hist)], Len(hist)>>
 
 (* ---- properties of the design (hold by construction; checked as sanity) ---- *)
 \* Repeatability: re-applying a handle answers the same unless ITS environment changed
@@ -108,6 +121,7 @@ Repeatable ==
     \A i, j \in 1..Len(hist) :
         (/\ i < j /\ hist[i].op = "apply" /\ hist[j].op = "apply"
          /\ hist[i].h = hist[j].h /\ hist[i].d = hist[j].d
+         /\ \A k \in i..j : hist[k].op # "edit" \/ hist[k].d # hist[i].d
          /\ \A k \in i..j : hist[k].op \in {"register", "newsub"} => hist[k].op = "newsub" \/ hist[k].e # handles[hist[i].h].e)
         => hist[i].resp = hist[j].resp
 
